@@ -266,11 +266,11 @@ def instances(tier):
     for dk in DEFAULT_KINDS:
         add(f'columns/public/{dk}/K{K}', 'columns', {'schema': 'public', 'K': K, 'dk': dk}, T)
     for dk in ('int0', 'empty', 'expr'):
-        add(f'columns/s/{dk}/K{K}', 'columns', {'schema': 's', 'K': K, 'dk': dk}, T)
-    for schema in ('public', 's'):
+        add(f'columns/pub/{dk}/K{K}', 'columns', {'schema': 'pub', 'K': K, 'dk': dk}, T)
+    for schema in ('public', 'Public'):
         for shape in ('single', 'composite', 'expr', 'colexpr'):
             add(f'indexes/{schema}/{shape}/K{K}', 'indexes', {'schema': schema, 'shape': shape, 'K': K}, T)
-    for ts, es in (('public', 'public'), ('s', 'public'), ('public', 'e'), ('s', 'e')):
+    for ts, es in (('public', 'public'), ('pub', 'public'), ('public', 'PUBLIC'), ('lic', 'e')):
         add(f'enums_notes/{ts}/{es}/K{K}', 'enums_notes', {'tschema': ts, 'eschema': es, 'K': K}, T)
     add(f'parsed/K{K}', 'parsed_table', {'K': K}, T)
     if not quick:
